@@ -1343,7 +1343,7 @@ class TexArgs(list):
         if len(self) <= 1:
             self.all.append(arg)
         else:
-            if i > len(self):
+            if i >= len(self):
                 i = len(self) - 1
 
             before = self[i - 1]
